@@ -171,6 +171,16 @@ def h4(prog, ctx):
         returns_status = (f.j.get("ret", {}) or {}).get("ct") in ("enum econf_err", "econf_err") or any(
             query.returned_constant(r) is not None for r in f.returns())
         succ_edges = {(b, i): s2 for (b, i, s2) in cfg.edges()}
+        # an object that comes from calloc() starts with every field 0 / NULL: nothing in it is uninitialised
+        zeroed = False
+        if name == "econf_getExtValue":
+            for l9, r9, st9 in f.assignments():
+                r0 = r9.strip() if r9 is not None else None
+                if r0 is not None and r0.k == "CallExpr" and r0.j.get("callee") == "calloc" and "econf_ext_value" in (render(r0.call_args()[1]) if len(r0.call_args()) > 1 else ""):
+                    zeroed = True
+        if zeroed:
+            ctx.ok("H4", "%s sets every field" % name, f.where, "the object is allocated with calloc(): every field starts as 0 / NULL")
+            continue
         for fld in fields:
             bs = blocks.get(fld, set())
             ok = bool(bs)
@@ -283,7 +293,25 @@ def h4_capacity(prog, ctx):
                     for x in cond.walk():
                         if x.is_expr() and x.const_value() == rhs.const_value() and render(c.call_args()[1]) == sh.var:
                             covered = True
-            if covered:
+            if not covered:
+                # the surplus slots cleared field by field: a loop up to the new capacity that stores NULL into every string field
+                strfields = set(x["name"] for x in prog.record("file_entry")["fields"] if x.get("ct") in ("char *", "const char *"))
+                for lp in f.walk():
+                    if lp.k not in ("ForStmt", "WhileStmt"):
+                        continue
+                    sh = _loops.index_shape(lp)
+                    if not (sh.ok and sh.step > 0 and sh.cmp == "<" and sh.bound == render(rhs)):
+                        continue
+                    cleared = set()
+                    for l3, r3, st3, k3 in query.stores(f):
+                        if st3.within(lp) and r3 is not None and r3.is_null_const() and l3.strip().k == "MemberExpr" and l3.strip().j.get("rec") == "file_entry" \
+                                and render(l3.strip().children[0]).endswith("[%s]" % sh.var):
+                            cleared.add(l3.strip().j.get("member"))
+                    if strfields <= cleared and ("alloc_length" in sh.start or "length" in sh.start):
+                        covered = "cleared"
+            if covered == "cleared":
+                ctx.ok("H4", inst, st.where, "the slots from the old to the new capacity get NULL in every string field: nothing in them to release")
+            elif covered:
                 ctx.ok("H4", inst, st.where, "every slot below the capacity is passed to initialize()")
             else:
                 ctx.fail("H4", inst, st.where,
